@@ -757,7 +757,11 @@ def run(c):
     load_format_verdicts(c)
     c.cov["ties"].setdefault("T3", []).append({"name": "format verdicts from the C17 Lean recognisers (drv_fmt)", "strings": len(FORMAT_VERDICTS)})
     work = designs.scratch("C04")
-    builds = e2e.build_many(c.seed, range(n), flags_for, work)
+    nm = 24 if c.tier == "quick" else 96
+    c.cov["rule"] += (" Before them %d designs of the systematic transport table (every primitive kind in one location, required / optional / "
+                      "defaulted in rotation, odd dozens with the validation kinds in rotation)." % nm)
+    builds = e2e.build_many(c.seed, range(nm), lambda i: ["-matrix-design"], work)
+    builds += e2e.build_many(c.seed, range(n), flags_for, work)
     lines_total = 0
     for b in builds:
         if b.error:
@@ -808,7 +812,7 @@ def run(c):
             c.hist("verdict", side + ":" + verdict.split(" ")[0])
             for sig, what in judge(side, label, verdict, o, b, m, val, locs, typed):
                 c.fail(sig, "%s.%s [%s] %s" % (s["name"], m["name"], label, what),
-                       input={"seed": c.seed, "index": b.index, "service": s["name"], "method": m["name"], "command": cmds[i], "side": side, "label": label,
+                       input={"seed": c.seed, "index": b.index, "flags": b.flags, "service": s["name"], "method": m["name"], "command": cmds[i], "side": side, "label": label,
                               "value": val, "model_line": line},
                        design=b.design, expected=verdict, actual=json.dumps({k: o.get(k) for k in ("server_called", "client_error", "client_result", "panic")})[:600] +
                        " wire=" + json.dumps({k: (o.get("wire") or {}).get(k) for k in ("status", "resp_body", "path", "raw_query", "body")})[:600])
@@ -828,7 +832,7 @@ def replay(c, obj):
     c.go_build("genrun")
     c.lake_build("drv_valid", what="tie")
     work = designs.scratch("C04r")
-    b = e2e.build_design(f["input"]["seed"], f["input"]["index"], flags_for(f["input"]["index"]), work)
+    b = e2e.build_design(f["input"]["seed"], f["input"]["index"], f["input"].get("flags") or flags_for(f["input"]["index"]), work)
     if b.error:
         print("build:", b.error)
         shutil.rmtree(work, ignore_errors=True)
